@@ -67,15 +67,29 @@ def numpy_binning(b, name, n, ire=True):
 
 
 def make_binning(b, name, kind, n, **kw):
+    """configuration key `warm`: the binning has been looked at before (its lazy caches are filled)"""
     if kind == "fixed":
-        return fixed_width(b, name, count=n, **kw)
-    if kind == "static":
-        return static_binning(b, name, n, consecutive=True, **kw)
-    if kind == "gapped":
-        return static_binning(b, name, n, consecutive=None, **kw)
-    if kind == "numpy":
-        return numpy_binning(b, name, n, **kw)
-    raise ValueError(kind)
+        r = fixed_width(b, name, count=n, **kw)
+    elif kind == "static":
+        r = static_binning(b, name, n, consecutive=True, **kw)
+    elif kind == "gapped":
+        r = static_binning(b, name, n, consecutive=None, **kw)
+    elif kind == "numpy":
+        r = numpy_binning(b, name, n, **kw)
+    else:
+        raise ValueError(kind)
+    if getattr(b.cfg, "warm", False):
+        warm(b, r)
+    return r
+
+
+def warm(b, binning):
+    """fill the lazy caches of a binning (bins, numpy_bins, the consecutiveness answer): every contract must also hold for
+    objects that have been looked at before (representation invariant: a filled cache agrees with the defining fields)"""
+    b.touch(binning, "bins")
+    b.touch(binning, "numpy_bins")
+    b.touch(binning, "is_consecutive", call=True)
+    return binning
 
 
 def statistics(b, name, valid=True):
@@ -177,6 +191,61 @@ def same_binning(b0, b1):
         return False
     cs.append(same([x for p in v0 for x in p], [x for p in v1 for x in p]))
     return And(*cs)
+
+
+def rep_ok(bn, n=None):
+    """representation invariant of a binning: every FILLED cache agrees with the defining fields
+    (StaticBinning: _bins defines, _numpy_bins / _consecutive are caches; NumpyBinning: _numpy_bins defines; FixedWidthBinning:
+    the grid fields define, _bins / _numpy_bins are caches)"""
+    cls = typename(bn)
+    if cls == "ExponentialBinning":
+        return True
+    cs = []
+    if cls == "FixedWidthBinning" and not isinstance(attr(bn, "_bin_count"), int):
+        if n is None:
+            return True        # symbolic count: the accessor contracts state the caches
+        cs.append(attr(bn, "_bin_count") == n)
+    v = bins_of(bn, n)
+    n = len(v)
+    tol = lambda x, y: absolute(x - y) <= 1e-8 + 1e-5 * absolute(y)
+    cb, ce, cc = attr(bn, "_bins"), attr(bn, "_numpy_bins"), attr(bn, "_consecutive")
+    if cls != "StaticBinning" and cb is not None:
+        if shape_of(cb) != (n, 2):
+            return False
+        cs.append(same(elems(cb), [x for p in v for x in p]))
+    if cls != "NumpyBinning" and ce is not None:
+        if shape_of(ce) != ((n + 1,) if n else shape_of(ce)):
+            return False
+        if n:
+            cs.append(same(elems(ce), [v[0][0]] + [p[1] for p in v]))
+    if cls == "StaticBinning" and cc is not None:
+        cs.append(Iff(cc, And(*[tol(v[k + 1][0], v[k][1]) for k in range(n - 1)]) if n > 1 else True))
+    return And(*cs) if cs else True
+
+
+def hist_ok(h):
+    """well-formedness of a histogram: coherent binnings, contents and errors of the shape of the bins and of the stored dtype"""
+    bs = attr(h, "_binnings")
+    f, e = attr(h, "_frequencies"), attr(h, "_errors2")
+    if len(shape_of(f)) != len(bs) or shape_of(e) != shape_of(f):
+        return False
+    if dtype_of(f) != attr(h, "_dtype") or dtype_of(e) != attr(h, "_dtype"):
+        return False
+    cs = []
+    for k, bn in enumerate(bs):
+        if typename(bn) == "ExponentialBinning":
+            cs.append(attr(bn, "_bin_count") == shape_of(f)[k])
+        else:
+            # the stored contents have one entry per bin (a symbolic fixed-width count is compared with the extent)
+            cs.append(rep_ok(bn, shape_of(f)[k]))
+            if not (typename(bn) == "FixedWidthBinning" and not isinstance(attr(bn, "_bin_count"), int)):
+                if len(bins_of(bn)) != shape_of(f)[k]:
+                    return False
+    return And(*cs)
+
+
+def well_formed(*hs):
+    return And(*[hist_ok(h) for h in hs if h is not None and is_obj(h) and has(h, "_binnings")])
 
 
 def same_hist(h0, h1, stats=True, dtype=True):
